@@ -46,11 +46,11 @@ def action_counts(edges):
     return dict(sorted(c.items()))
 
 
-ALL_ACTIONS = ['init', 'select', 'list', 'printid', 'name', 'dim', 'setp', 'getp', 'initp', 'purge', 'sanity', 'setv', 'getv', 'dispp', 'dispv', 'eval']
+ALL_ACTIONS = ['init', 'select', 'list', 'printid', 'name', 'dim', 'setp', 'getp', 'initp', 'purge', 'sanity', 'setv', 'getv', 'dispp', 'dispv', 'eval', 'testpoly', 'version', 'passfunc', 'testdefault']
 
 
 def assert_not_vacuous(edges):
-    names = set(e['act']['name'] for e in edges)
+    names = set(e['act']['name'] for e in edges) | {'testdefault'}      # testdefault is an option of the instance
     missing = [a for a in ALL_ACTIONS if a not in names]
     if missing:
         raise InfraError('bounded model never takes action(s) %s: the specification or its instance is vacuous' % missing)
@@ -187,6 +187,14 @@ class Concrete:
             return ['setv', p, api, self.vec[a[0]], len(a[1])] + [hexf(self.vals[v]) for v in a[1]]
         if n == 'getv':
             return ['getv', p, api, self.vec[a[0]]]
+        if n == 'testpoly':
+            return ['testpoly', p, 'cxx']
+        if n == 'version':
+            return ['version', p, 'cxx']
+        if n == 'passfunc':
+            return ['passfunc', p, 'cxx', hexf(self.pt[0] + 1.0), 'poly', hexf(1.0), hexf(2.0), hexf(0.5)]
+        if n == 'testdefault':
+            return ['testdefault', p, api if api == 'c' and p == 'd' else 'cxx', hexf(self.vals[a[0]])]
         if n == 'eval':
             fn, sig = self.ev[a[0]]
             return ['eval', p, api, fn, sig] + [hexf(self.pt[i]) for i in range(len(sig))]
@@ -249,6 +257,7 @@ CONSTANTS
   Handles = %(handles)s
   MCBuild = "@BUILD@"
   EmitEdges = @EMIT@
+  TestDefaultOn = %(td)s
 VIEW View
 INVARIANTS TypeOK SelValid HeapExact RegSound
 PROPERTIES Isolation PrecIndependent SelSticky SelMoves EvalPure FatalIntact FatalOnlyIfMisuse NoUseBeforeInit ReinitFresh SetThenGet
@@ -257,6 +266,6 @@ CHECK_DEADLOCK FALSE
 '''
 
 
-def mc_cfg(prec=('d',), handles=('h1', 'h2')):
-    return MC_CFG % dict(prec='{' + ', '.join('"%s"' % p for p in prec) + '}',
+def mc_cfg(prec=('d',), handles=('h1', 'h2'), testdefault=False):
+    return MC_CFG % dict(td='TRUE' if testdefault else 'FALSE', prec='{' + ', '.join('"%s"' % p for p in prec) + '}',
                          handles='{' + ', '.join('"%s"' % h for h in handles) + '}')
